@@ -999,7 +999,41 @@ def flag_width(ctx):
     to_bytes_width(ctx, 'C03.flag-width', ['bumble.controller'])
 
 
+def response_match(ctx):
+    """each caller receives the response that carries its own command's opcode: an event whose opcode differs from the
+    pending command's does not resolve the pending future."""
+    R, p = ctx.r, ctx.p
+    rule = 'C03.response-match'
+    cp = p.find('bumble.host.Host.on_command_processed')
+    if cp is None:
+        R.bad(rule, 'bumble.host.Host.on_command_processed', 'anchor missing')
+        return
+
+    class D(paths.Domain):
+        # value: None (unknown) | 'same' | 'differs'
+        def assume(self, atom, truth, v):
+            if isinstance(atom, ast.Compare) and len(atom.ops) == 1 and isinstance(atom.ops[0], (ast.Eq, ast.NotEq)):
+                sides = {norm(atom.left), norm(atom.comparators[0])}
+                if sides == {'self.pending_command.op_code', 'event.command_opcode'}:
+                    differs = truth if isinstance(atom.ops[0], ast.NotEq) else not truth
+                    return ('differs' if differs else 'same',)
+            return (v,)
+
+        def event(self, node, v):
+            if isinstance(node, ast.Call) and dotted(node.func) == 'self.pending_response.set_result':
+                return ((v, 'resolved'),)
+            return (v,)
+    res = paths.run(cp, D(), None)
+    ex = paths.normal_exits(res)
+    compared = any(v in ('same', 'differs') or (isinstance(v, tuple) and v[0] in ('same', 'differs')) for v in ex)
+    R.check(compared, rule, 'bumble.host.Host.on_command_processed | opcode compared', 'the event opcode is compared with the pending command', 'the opcode of the event is no longer compared with the pending command', p.loc(cp))
+    bad = [' '.join(w) for v, w in ex.items() if v == ('differs', 'resolved')]
+    R.check(not bad, rule, 'bumble.host.Host.on_command_processed | mismatch resolves the caller', 'an event for another opcode leaves the pending future alone',
+            'an event whose opcode differs from the pending command is only logged and still resolves the pending future: after a response timeout the late answer to the previous command is handed to the next caller', p.loc(cp), bad[:2])
+
+
 RULES = [
+    ('C03.response-match', response_match),
     ('C03.flag-width', flag_width),
     ('C03.identity', identity_rule),
     ('C03.lmp-pending', lmp_pending_rule),
